@@ -268,7 +268,7 @@ func atomEq(in, out Atom, ctx *Ctx) string {
 		if ci == nil || co == nil {
 			return "tokens-changed"
 		}
-		if d := colorDiff(ci, co, !ctx.Strict); d != "" {
+		if d := colorDiff(ci, co, !ctx.Strict && ci.Quant); d != "" { // K45 leniency for 8-bit notations only: function notations keep their channels
 			return "color:" + d
 		}
 		return ""
